@@ -16,6 +16,7 @@ executes the division model.  Only property theorems and examples here; proofs a
 Lemmas/SparseElem*.lean.
 -/
 import PyttbModel.Lemmas.SparseElemOrder
+import PyttbModel.Lemmas.SparseElemKruskal
 namespace Pyttb
 open SpElem
 
@@ -104,6 +105,14 @@ theorem C03_mul_dense [Semiring α] [DecidableEq α] (A : Sparse α) (hA : A.WF)
 theorem C03_mul_sparse [Semiring α] [DecidableEq α] [NoZeroDivisors α] (A : Sparse α) (hA : A.WF) (B : Sparse α) (hB : B.WF) (hs : A.shape = B.shape) :
     ∃ R, mul A (.sparse B) = .ok R ∧ R.WF ∧ R.shape = A.shape ∧ ∀ i, R.get i = A.get i * B.get i :=
   mul_sparse_spec A B hA hB hs
+
+/-- `S * K` for a Kruskal tensor `K` of the same shape: every stored value is multiplied by the
+entry `Σ_r λ_r ∏ₙ Uₙ[iₙ, r]` of `K` at its subscript (the code accumulates it component by
+component); products equal to zero are not stored. -/
+theorem C03_mul_kruskal [CommSemiring α] [DecidableEq α] (A : Sparse α) (hA : A.WF) (K : Ktensor α)
+    (hs : A.shape = K.shape) :
+    ∃ R, mulK A K = .ok R ∧ R.WF ∧ R.shape = A.shape ∧ ∀ i, R.get i = A.get i * K.get i :=
+  mulK_spec A hA K hs
 
 /-! ### `/` over an abstract division; the facts used at zero are hypotheses -/
 
